@@ -12,15 +12,27 @@ def clusters_of(op, g):
     return set()
 
 
-def discard_race(c, upto):
-    """known class F30: some batch up to `upto` runs a discard concurrently with a write or read
-    of a cluster the discard covers"""
+def discard_race(c, upto, desc=''):
+    """known class F30: some batch up to `upto` runs a discard concurrently with a write or discard of a cluster the
+    discard covers (then any cluster can receive the late data), or concurrently with a read of such a cluster and
+    the finding is about that cluster (only the read can see foreign data)"""
+    import re
+    m = re.search(r'guest block (\d+)', desc)
+    fblk = int(m.group(1)) if m else None
+    cs = c['g'].cs
     for b in c['batches'][:upto + 1]:
         ds = [o for o in b['ops'] if o[0] == 'D']
         for dop in ds:
             dc = clusters_of(dop, c['g'])
             for o in b['ops']:
-                if o is not dop and o[0] in ('W', 'R', 'D') and clusters_of(o, c['g']) & dc:
+                if o is dop or o[0] not in ('W', 'R', 'D'):
+                    continue
+                common_ = clusters_of(o, c['g']) & dc
+                if not common_:
+                    continue
+                if o[0] in ('W', 'D'):
+                    return True
+                if fblk is None or (fblk * 512) // cs in common_:
                     return True
     return False
 
@@ -90,7 +102,7 @@ def run_conc(prop, tier, seed, replay, extra=None, gate0=None):
                 g = hist.Geom(top.cluster_bits, top.refcount_order, top.size, 9, l2, rb, punch=g.punch)
             except ValueError:
                 images = None
-        text, batches, fsw = conc.build_case(cid, g, rng, rng.choice([1, 2, 3]), images=images)
+        text, batches, fsw = conc.build_case(cid, g, rng, rng.choice([1, 2, 3]), images=images, faults_p=(0.25 if prop == 'C18' else 0.0))
         cases.append({'cid': cid, 'g': g, 'text': text, 'batches': batches, 'fsw': fsw, 'init': init, 'images': images})
     obs = seqrun.run_cases_text(d, [(c['cid'], c['text']) for c in cases], timeout=1200)
     finds = []
@@ -153,6 +165,8 @@ def run_conc(prop, tier, seed, replay, extra=None, gate0=None):
             if diff or len(vals) != len(want):
                 finds.append(('flag', c, 'need_flush_meta() returned false after batch %d, but a device opened on the file at that moment reads %s for guest block %d where the live device reads %s' % (
                     bi, vals[diff[0]] if diff else '(open/read failed)', diff[0] if diff else -1, want[diff[0]] if diff else '-'), bi, ''))
+            elif any(b.get('faulty') for b in c['batches'][:bi + 1]) and ' safe=1 ' in vd.get(p, ''):
+                pass    # after an injected backend failure leaked clusters are the permitted residue (C17)
             elif ' valid=1 ' not in vd.get(p, ''):
                 finds.append(('flag', c, 'need_flush_meta() returned false after batch %d, but the file is not a valid image: %s' % (bi, vd.get(p, '')[len(p):][:160]), bi, ''))
     cache_violations = []
@@ -169,7 +183,7 @@ def run_conc(prop, tier, seed, replay, extra=None, gate0=None):
         kf = []
         for f in kfs:
             pred = f.get('match', {}).get('predicate')
-            if pred == 'discard_race' and discard_race(c, bi if bi >= 0 else len(c['batches'])):
+            if pred == 'discard_race' and discard_race(c, bi if bi >= 0 else len(c['batches']), desc):
                 kf.append(f)
             elif pred == 'cache_pressure' and cache_pressure(c, bi if bi >= 0 else len(c['batches'])):
                 kf.append(f)
